@@ -1,4 +1,4 @@
-"""C07 — messages reach exactly the addressed sessions, once, with the true sender."""
+"""C07 — closed sessions leave nothing behind; limits exact."""
 from . import _hub
 
 CONFIG = dict(
@@ -15,7 +15,7 @@ CONFIG = dict(
 )
 
 MANIFEST = dict(
-    text="Lean 4 theorems over the hub model for every finite op sequence: any session id mentioned in any table (room members, in-call sets, room/user/session bus listeners, room-session maps, virtual-session table, expiry/anonymous/dial-out lists, per-backend counts, connections, parent/child links) belongs to a live session, so an ended session is referenced nowhere and a room it emptied is gone; the per-backend count never exceeds the configured limit and a free slot is usable. Tied to the code by regenerated facts (vtable cleanup, in-call membership guard) and the differential hub run with a full table digest at every step; the judge runs the residue and limit checks on the implementation's own tables.",
-    note='Hello is modelled as one atomic step after authentication (abandoned hellos and races for the last slot are exercised by the harness only through sequential histories; concurrent registration is not modelled). Limits lowered at run time below the current count (reload) are outside the model. gRPC cluster-wide counts, federation (federatedSessions) not modelled.',
+    text="Lean 4 theorems over the hub model for every finite op sequence: any session id mentioned in any table (room members, in-call sets, room/user/session bus listeners, room-session maps, virtual-session table, expiry/anonymous/dial-out lists, per-backend counts, connections, parent/child links) belongs to a live session, so an ended session is referenced nowhere and a room it emptied is gone; the per-backend count never exceeds the configured limit and a free slot is usable. Tied to the code by regenerated facts (vtable cleanup, in-call membership guard) and the differential hub run with a full table digest at every step; the judge runs the residue and limit checks on the implementation's own tables. Registrations racing for the last free slot and a registration racing with a slot being freed are issued concurrently (battery of short race cases; the fake backend releases the racing auth replies together) and judged on the tables at rest; that the limit is compared and the session recorded inside one critical section is a regenerated fact (C07_limit_check_atomic).",
+    note='Hello is modelled as one atomic step after authentication; its atomicity in the code is the regenerated fact above, concurrent registrations are exercised by the harness (any order of the racing requests must explain the tables at rest) but interleavings inside a registration are not modelled. Limits lowered at run time below the current count (reload) are outside the model. gRPC cluster-wide counts, federation (federatedSessions) not modelled.',
     technique="Lean 4 proof (routing refinement over the hub model) + differential correspondence",
 )
